@@ -49,9 +49,9 @@ CLAIMED.update({
 
 
 CLAIMED.update({
- "C10": ("exploration", "seq-long", "4.C10",
-   "Long runs (200-400 transactions in quick, 1000-3000 in thorough) of five steady-state workloads (fixed-size overwrite, variable-size overwrite with multi-page values, sliding-window insert/delete, bucket create/delete churn, mixed), with periodic close+reopen or a reader pinned across a stretch. After every commit the independent checker reads the page high-water mark, live and free pages from the raw file. Oracle, independent of the number of transactions: hwm <= 5*L+16 where L is the largest number of live pages ever seen (worst observed ratio on the repaired tree: 2.45), the second half of the run (or, with a pinned reader, everything from five transactions after it closed) may not raise the mark by more than 2+L/2 pages, the pinned reader still reads its snapshot, and the file is no longer than the mark rounded up to the growth step plus one step.",
-   "the constants are calibrated on the repaired tree with about 2x head-room; reader variants start with a 16 MiB file (reader + growing writer on one thread self-deadlocks by construction)",
+ "C10": ("exploration", "seq-long + shuttle", "4.C10",
+   "Long runs (300-600 transactions in quick, 1000-3000 in thorough) of five steady-state workloads (fixed-size overwrite, variable-size overwrite with multi-page values, sliding-window insert/delete, bucket create/delete churn, mixed), with periodic close+reopen or a reader pinned across a stretch. After every commit the independent checker reads the page high-water mark, live and free pages from the raw file. Oracle, independent of the number of transactions: hwm <= 5*L+16 where L is the largest number of live pages ever seen, the second half of the run (or, with a pinned reader, everything from five transactions after it closed) may not raise the mark by more than 8+2L pages, the pinned reader still reads its snapshot, and the file is no longer than the mark rounded up to the growth step plus one step. A reader-chain mode keeps overlapping readers open so that one is open whenever a writer begins (bound (life+7)*L+16). Live data L is the number of pages actually reachable in the file, so a leak cannot hide inside L. A second, threaded part (shuttle, like C04) lets two or three reader threads open and close transactions while a writer commits under seeded schedules; after every reader is gone ten more overwrite commits must plateau.",
+   "the constants are calibrated on the repaired tree with about 2x head-room; reader variants start with a 256 MiB sparse file and a run is skipped, not judged, if a commit would have to grow the file while the harness holds a reader on the committing thread (reader + growing writer on one thread self-deadlocks by construction); the threaded part runs on shuttle primitives",
    "deterministic simulation: long seeded histories, growth bound read from the raw file after every commit"),
  "C15": ("exploration", "compat", "4.C15",
    "Version change as a restart onto an old node's disk: the pinned release (vendored verbatim as crate jammdb_pinned) writes a seeded database at page size 1024 / 4096 / 5000 / 16384 with nested buckets, multi-page values and a non-empty free list; the independent reader must agree; the current tree must then show identical contents, run a seeded continuation under the model oracle and the file checker, and the pinned release must read what the current tree wrote; the same with both headers rewritten in the legacy SHA3 format; every other page size of the set must be refused with zero write/extend/sync calls and unchanged bytes. Eight byte-exact golden images produced from the pinned commit are committed with their recorded contents and checked on every run.",
@@ -107,7 +107,7 @@ def main():
       },
       "engines":[
         {"name":"jsim","path":"/verif/sim","serves_properties":[k for k in sorted(CLAIMED.keys()) if k not in ("C04","C09","C13")],"kind_free_text":"deterministic simulator on /repo unmodified: libc-level I/O seam (SimOS), reference model, independent file checker, seeded swarm generator, crash / fault / corruption engines, shrinker, replay; also the orchestrator of every check"},
-        {"name":"jsim-sh","path":"/verif/sim-sh","serves_properties":["C04","C09","C13"],"kind_free_text":"the same seam and harness with /repo built through a generated shadow manifest and --cfg jammdb_verif (shuttle locks): seeded thread / process schedules, recording and list-replay schedulers, schedule minimisation"},
+        {"name":"jsim-sh","path":"/verif/sim-sh","serves_properties":["C04","C09","C10","C13"],"kind_free_text":"the same seam and harness with /repo built through a generated shadow manifest and --cfg jammdb_verif (shuttle locks): seeded thread / process schedules, recording and list-replay schedulers, schedule minimisation"},
       ],
       "checks":checks,
       "not_applicable":na,
